@@ -752,11 +752,13 @@ func (obj *SparseReal64Matrix) JointIterator(b ConstMatrix) MatrixJointIterator 
 }
 func (obj *SparseReal64Matrix) ITERATOR() *SparseReal64MatrixIterator {
   r := SparseReal64MatrixIterator{*obj.values.ITERATOR(), obj}
+  r.skipOutside()
   return &r
 }
 func (obj *SparseReal64Matrix) ITERATOR_FROM(i, j int) *SparseReal64MatrixIterator {
   k := obj.index(i, j)
   r := SparseReal64MatrixIterator{*obj.values.ITERATOR_FROM(k), obj}
+  r.skipOutside()
   return &r
 }
 func (obj *SparseReal64Matrix) JOINT_ITERATOR(b ConstMatrix) *SparseReal64MatrixJointIterator {
@@ -777,6 +779,20 @@ type SparseReal64MatrixIterator struct {
 }
 func (obj *SparseReal64MatrixIterator) Index() (int, int) {
   return obj.m.ij(obj.SparseReal64VectorIterator.Index())
+}
+func (obj *SparseReal64MatrixIterator) Next() {
+  obj.SparseReal64VectorIterator.Next()
+  obj.skipOutside()
+}
+// the underlying vector also holds the entries of the parent matrix that lie
+// outside a sub-matrix view: skip them
+func (obj *SparseReal64MatrixIterator) skipOutside() {
+  for obj.SparseReal64VectorIterator.Ok() {
+    if i, j := obj.Index(); i >= 0 && i < obj.m.rows && j >= 0 && j < obj.m.cols {
+      return
+    }
+    obj.SparseReal64VectorIterator.Next()
+  }
 }
 func (obj *SparseReal64MatrixIterator) Clone() *SparseReal64MatrixIterator {
   return &SparseReal64MatrixIterator{*obj.SparseReal64VectorIterator.Clone(), obj.m}
